@@ -12,8 +12,10 @@ TCtx == /\ ~Ev.panic
 \* a file name that the analyzer's own detectors compare names with is a marker by the program's own statement: alone in a
 \* directory it is recognised (whatever stands between the listing and the detectors must let it through)
 TLit == Ev.op = "ctxlit" /\ ~Ev.generic
+\* the command line reports the context of the directory it runs in, whatever PWD says
+TCtxCli == Ev.op = "ctxcli" /\ Ev.same
 TraceInit == l = 1
-TraceNext == l <= Len(Trace) /\ l' = l + 1 /\ ((Ev.op = "ctx" /\ TCtx) \/ TLit)
+TraceNext == l <= Len(Trace) /\ l' = l + 1 /\ ((Ev.op = "ctx" /\ TCtx) \/ TLit \/ TCtxCli)
 TraceSpec == TraceInit /\ [][TraceNext]_l
 TraceAccepted ==
     LET d == TLCGet("stats").diameter IN
